@@ -464,14 +464,44 @@ CLAIMED = {
              "language - 19 leaf classes + Compose/Add/Conj/Hstack/Vstack/Diag - every tree satisfies A(a x + y) = a A x + A y over "
              "any commutative star ring incl. C with complex a), tree_history_deterministic, conj_sandwich_linear / conj_half_antilinear (Conj is C-linear; "
              "dropping one conjugate is not); history_determinism (an _apply that reads only constructor parameters and writes nothing "
-             "gives, in every interleaving of apply/.H/.N, the output a fresh object gives). Tie: translator every run + runtime "
+             "gives, in every interleaving of apply/.H/.N, the output a fresh object gives). Round-4 additions: writesOnly / "
+             "writesOnly_sound (the checker for functions with an in/out argument or object state: every entry buffer not owned by an "
+             "allowed origin keeps its contents) and 24 more kernel-checked obligations for the APPS - the four LinearLeastSquares "
+             "set-ups, their closures gradf / minL_x / minL_v (each closure is its own program: closure parameters = parameters, "
+             "self.* and the enclosing method's parameters = captured, the enclosing body as a flow-insensitive prefix), objective, "
+             "and in sigpy/mri/app.py _estimate_weights, the three recon constructors and their g closures, JsenseRecon "
+             "_get_data/_get_vars/_get_alg(+closures)/_output, EspiritCalib __init__(+closures)/_output: they write only fresh arrays, "
+             "the object itself and the solution / own work arrays (self.x; mps_ker, img_ker; mps; the **kwargs dictionary carrying x), "
+             "never y, z, mps, weights, coord or arrays captured by A / G / proxg / P. Props/C02Leaves.lean: act_linear / "
+             "tree_linear_no_leaf_hypothesis (EVERY tree of the C01 language - the 19 exact classes incl. MatMul/RightMatMul and the "
+             "ext leaves FFT/IFFT (C05 table), Convolve* (C08 model), Wavelet (C10 model) - is additive and homogeneous over C, no "
+             "hypothesis on leaves or well-formedness), fft_leaf_linear / conv_leaf_linear / wave_leaf_linear / matmul_leaf_linear "
+             "(the leaves C01's builders produce denote operators with the class's shapes), conv1At_linear_data / _filter (the C08 "
+             "function model itself is linear), tree_denotation_function and algebra_history_deterministic / _equal_objects (a pool of "
+             "live operator objects under a history of operator algebra S = A + B, T = S + C, S * A, Conj, stacks, each re-using "
+             "existing objects, interleaved with applications: apply i x always returns the action of the tree object i was built "
+             "as). Tie: translator every run + runtime "
              "stream on the real code validating the numpy view/copy table (byte snapshots of all arguments and captured arrays, "
-             "np.shares_memory vs the IR's alias claims, repeated calls, exact linearity on Gaussian integers).",
+             "np.shares_memory vs the IR's alias claims, repeated calls, exact linearity on Gaussian integers) + the history stream "
+             "check_hist: tree shapes from the C01 generator, pools of live objects combined by +, -, *, Add, Compose, scalars, Conj, "
+             "Hstack/Vstack/Diag, .H/.N re-using live operands; every object applied to complex128/float64/float32/int64/complex64 "
+             "inputs at construction, in between and at the end; outputs compared bitwise with the object's first output, with the "
+             "combination of its parts' outputs (1e4 x eps of the parts' dtype), with an equal object built from scratch, and with "
+             "M x for the matrix of the Lean denotation of its tree (driver `C02 mats`, obligation correspondence:C02.tree-denotation).",
         note="Trusted: Lean kernel; translator gen_c02 and its numpy view/copy table (validated by the runtime stream, not proved); "
              "call = any behaviour within the callee's summary (assume-guarantee, no interprocedural semantics); stores through a "
-             "subscript are value copies unless the base is a known container; needsRuntime: util.monte_carlo_sure (user callback), "
-             "AllReduce (MPI); in place by contract: util.axpy, util.xpay, fourier._apodize, Alg classes; CuPy arms skipped; "
-             "LinearLeastSquares._get_* closures and linearity/determinism of FFT/NUFFT/wavelet/Kaiser-Bessel paths are runtime only "
+             "subscript are value copies unless the base is a known container; for the apps additionally: ALG_WRITES (which "
+             "constructor arguments ConjugateGradient / GradientMethod / PrimalDualHybridGradient / ADMM / PowerMethod / "
+             "LinearLeastSquares write in their later updates: the in/out x, u, v only - the update rules are C12-C14's models), "
+             "Linop / Prox constructors only store references, `op += ...` on a Linop is a rebinding (no in-place dunder in linop.py: "
+             "checked syntactically every run, else broken obligation), self.attr = v is a weak update; needsRuntime: "
+             "util.monte_carlo_sure (user callback), AllReduce (MPI), LinearLeastSquares.__init__/_summarize/_output and App.run "
+             "(no array code of their own; x allocation), JsenseRecon.__init__ (calls its three set-up methods, each proved), z or P "
+             "passed to a recon app inside **kwargs (the dictionary is one origin), L2ConstrainedMinimization / MaxEig set-ups; in "
+             "place by contract: util.axpy, util.xpay, fourier._apodize, Alg classes; CuPy arms skipped; linearity/determinism of "
+             "NUFFT / Kaiser-Bessel paths and N-d / complex wavelets are runtime only; a LEAF class that rejects real-typed arrays "
+             "(conv.py with a complex filter on real data raises a casting error on the unchanged tree) is not judged, a COMBINATOR "
+             "must accept a real / integer array whenever the combination of its parts' outputs is defined "
              "(complex64 linearity tolerance 2e-4 = 1e3 x observed rounding; complex128 1e-10).",
         technique="Lean 4 proof (sound no-mutation analysis, kernel-evaluated per function on translator-generated IR) + runtime validation",
         design="DESIGN.md §3 C02, §9"),
